@@ -181,6 +181,22 @@ func RunRestartScenario(sc *Scenario) (vd *Verdict) {
 			if h.Dataset(op.DS) != nil {
 				oerr = h.Dsm.DeleteDataset(op.DS)
 			}
+		case "setPublicNamespaces":
+			// the way a client changes a dataset's public namespaces: it stores the dataset's entity in core.Dataset
+			if h.Dataset(op.DS) != nil {
+				info, err := h.Store.NamespaceManager.GetDatasetNamespaceInfo()
+				if err == nil {
+					me, err := h.Store.GetEntity(info.DatasetPrefix+":"+op.DS, []string{"core.Dataset"}, true)
+					if err == nil && me != nil {
+						l := []interface{}{}
+						for _, x := range op.A {
+							l = append(l, x)
+						}
+						me.Properties[info.PublicNamespacesKey] = l
+						oerr = h.Dataset("core.Dataset").StoreEntities([]*server.Entity{me})
+					}
+				}
+			}
 		case "renameDataset":
 			if h.Dataset(op.DS) != nil && h.Dataset(op.DS2) == nil {
 				_, oerr = h.Dsm.UpdateDataset(op.DS, &server.UpdateDatasetConfig{ID: op.DS2})
@@ -290,6 +306,27 @@ func RunRestartScenario(sc *Scenario) (vd *Verdict) {
 					return
 				}
 				break
+			}
+			// ... and a dataset created now gets an internal id no dataset, live or deleted, ever had
+			var maxDs uint32
+			for _, n := range h.Store.VerifDatasetNames() {
+				if d := h.Dataset(n); d != nil && d.InternalID > maxDs {
+					maxDs = d.InternalID
+				}
+			}
+			for id := range h.Store.VerifDeletedDatasets() {
+				if id > maxDs {
+					maxDs = id
+				}
+			}
+			probe, err := h.Dsm.CreateDataset(fmt.Sprintf("after%d", stats["restarts"]), nil)
+			if err != nil || probe == nil {
+				fail(viol("C14", "restart-noop", "create-rejected-after-restart", "%v", err), i)
+				return
+			}
+			if probe.InternalID <= maxDs {
+				fail(viol("C14", "restart-noop", "dataset-id-reused", "the first dataset created after the restart got internal id %d; ids up to %d are taken by existing or deleted datasets", probe.InternalID, maxDs), i)
+				return
 			}
 			ev("restart")
 		}
